@@ -28,6 +28,8 @@ OPTIONS = {
     "line-numbers-minus-style": ("2", ["--line-numbers", "--line-numbers-left-format", "<{nm}>", "--line-numbers-right-format", ""]),
 }
 HEADER_STYLES = {"file-style", "commit-style", "hunk-header-style"}
+BLAME_INPUT = b"ea82f2d0 (Dan Davison       2021-08-22 18:20:19 -0700 120) locBlame code\n"
+BLAME_OPTS = {"blame-code-style": "locBlame", "blame-separator-style": "│"}
 BASE = ["--no-gitconfig", "--syntax-theme", "none", "--width", "80", "--file-decoration-style", "none",
         "--hunk-header-decoration-style", "none", "--commit-decoration-style", "none", "--max-line-distance", "0"]
 
@@ -53,8 +55,12 @@ def lex_word(w):
 
 
 def observe(opt, style, truecolor):
-    tok, extra = OPTIONS[opt]
-    r = core.run_delta(BASE + extra + ["--true-color", truecolor, f"--{opt}", style], INPUT, allow_usage_error=True)
+    if opt in BLAME_OPTS:
+        tok, extra = BLAME_OPTS[opt], ["--blame-timestamp-output-format", "%Y"]
+        r = core.run_delta(BASE + extra + ["--true-color", truecolor, f"--{opt}", style], BLAME_INPUT, allow_usage_error=True)
+    else:
+        tok, extra = OPTIONS[opt]
+        r = core.run_delta(BASE + extra + ["--true-color", truecolor, f"--{opt}", style], INPUT, allow_usage_error=True)
     if r.code != 0:
         return r, None
     for b in r.out.split(b"\n"):
@@ -74,7 +80,7 @@ def observe(opt, style, truecolor):
 
 
 def shown(opt, style, truecolor):
-    tok, extra = OPTIONS[opt]
+    tok, extra = OPTIONS.get(opt, ("", []))
     r = core.run_delta(BASE + extra + ["--true-color", truecolor, f"--{opt}", style, "--show-config"], b"",
                        allow_usage_error=True)
     for line in lexer.strip_ansi(r.out).decode("utf-8", "replace").split("\n"):
@@ -110,6 +116,15 @@ def run(tier):
         opt = r2.choice(list(OPTIONS))
         attr = r2.choice([a for a in ATTRS if a != "underline" or opt not in HEADER_STYLES])
         jobs.append(([hx, hy] + ([attr] if i % 2 else []), opt, "always" if i % 3 else "never", i % 8 == 0))
+    # styles that --show-config does not list (blame): both colour depths, direct colours
+    for i in range(40 if tier == "quick" else 400):
+        r2 = random.Random(core.seed() * 12007 + i)
+        hx = "#%02x%02x%02x" % (r2.randrange(256), r2.randrange(256), r2.randrange(256))
+        jobs.append(([hx, r2.choice(["normal", "17", "#102030"])] + ([r2.choice(["bold", "italic"])] if i % 2 else []),
+                     r2.choice(list(BLAME_OPTS)), "never" if i % 2 else "always", False))
+    # direct colours whose hex digits are doubled (#aabbcc), round-tripped through --show-config
+    for i, hx in enumerate(["#ffffff", "#000000", "#aabbcc", "#112233", "#ff00aa", "#99ccff", "#abcdef", "#a0b0c0"]):
+        jobs.append(([hx, "#ddeeff" if i % 2 else "normal"], ["plus-style", "minus-style", "zero-style", "file-style"][i % 4], "always", True))
     allwords = list(NAMED) + list(BRIGHT) + ["bright-red", "bright-purple", "bright-white"] + list(ATTRS)
     for i in range(300 if tier == "quick" else 3000):
         r2 = random.Random(core.seed() * 8191 + i)
@@ -126,6 +141,8 @@ def run(tier):
 
     def one(job):
         ws, opt, tc, rt = job
+        if opt in BLAME_OPTS:
+            rt = False
         style = " ".join(ws)
         r, obs = observe(opt, style, tc)
         rtv = 2
@@ -153,6 +170,37 @@ def run(tier):
                        "exact": tc == "always", "rt": rtv})
     if notfound > len(jobs) // 50:
         raise core.ToolError(f"the painted token was not found in {notfound} outputs")
+    # decoration styles: letter case and quoting must not matter (relational: same rendering as the lower-case form)
+    DECO_OPTS = ["file-decoration-style", "hunk-header-decoration-style", "commit-decoration-style"]
+    DECO_WORDS = ["box", "ul", "ol", "underline", "overline", "blue", "bold", "yellow", "#0a141e", "none"]
+    dpairs = []
+    for i in range(120 if tier == "quick" else 1200):
+        r2 = random.Random(core.seed() * 33211 + i)
+        ws = [r2.choice(DECO_WORDS) for _ in range(r2.randint(1, 3))]
+        if sum(w in ("blue", "yellow", "#0a141e") for w in ws) > 2:
+            continue
+        var = [w.upper() if r2.random() < 0.5 else w.capitalize() for w in ws]
+        var = [("'" + w + "'") if r2.random() < 0.2 else w for w in var]
+        dpairs.append((r2.choice(DECO_OPTS), " ".join(ws), " ".join(var)))
+
+    def deco_one(job):
+        opt, a, b = job
+        base = ["--no-gitconfig", "--syntax-theme", "none", "--width", "60"]
+        return (core.run_delta(base + [f"--{opt}", a], INPUT, allow_usage_error=True),
+                core.run_delta(base + [f"--{opt}", b], INPUT, allow_usage_error=True))
+    dres = core.pmap(deco_one, dpairs)
+    intern = gitskin.Interner()
+    devents = []
+    for j, ((opt, a, b), (ra, rb)) in enumerate(zip(dpairs, dres)):
+        xa = [intern(x) for x in ra.out.split(b"\n")] + [1000000 + ra.code]
+        xb = [intern(x) for x in rb.out.split(b"\n")] + [1000000 + rb.code]
+        devents.append({"run": j, "kind": "equal", "x": xa, "y": xb, "z": [], "ex": []})
+    dfailed, dtr = tlc.validate_trace("Trace_Rel", devents)
+    for f in dfailed:
+        opt, a, b = dpairs[f["run"]]
+        V.violation(f"deco-case:{opt}:{a}", f"--{opt} '{b}' is not rendered like '{a}' (letter case / quoting)",
+                    {"option": opt, "a": a, "b": b, "run": dres[f["run"]][1].to_json()})
+    log(f"[{PID}] {len(devents)} decoration-style strings compared with their lower-case form by TLC, {len(dfailed)} rejected")
     failed, tr = tlc.validate_trace("Trace_Style", events)
     log(f"[{PID}] {len(events)} style strings judged by TLC (Trace_Style), {len(failed)} rejected ({notfound} not located)")
     for f in failed:
